@@ -157,22 +157,24 @@ def sink_put_chunk_atmost (fuel : Nat) (s : Snk) (d : List Octet) : R × Snk :=
 
 /-! ### plumbing (no getbuffer extension) -/
 
-/-- `sts_cbc`: one octet from the source into the sink -/
+/-- the sink is asked again while it takes nothing (answers 0); every such answer uses up one step of its
+    script, so `script.length + 1` rounds always suffice -/
+def putRetry : (fuel : Nat) → Snk → Octet → R × Snk
+  | 0, s, _ => (.diverge, s)
+  | fuel + 1, s, o =>
+    match sink_put_octet s o with
+    | (.ok 0, s') => putRetry fuel s' o
+    | r => r
+
+/-- `sts_cbc`: one octet from the source into the sink; 0 when the source delivered nothing -/
 def sts_cbc (src : Src) (snk : Snk) : R × Src × Snk :=
   match source_get_octet src with
   | (.err e, _, src') => (.err e, src', snk)
   | (.diverge, _, src') => (.diverge, src', snk)
   | (.ok _, d, src') =>
     match d with
-    | [] => (.ok 0, src', snk)     -- driver answered 0: outside the model's domain (see DESIGN.md)
-    | o :: _ => let (r, snk') := sink_put_octet snk o; (r, src', snk')
-
-def sts_n_cbc : (n : Nat) → Src → Snk → (total : Nat) → R × Src × Snk
-  | 0, src, snk, total => (.ok total, src, snk)
-  | n + 1, src, snk, total =>
-    match sts_cbc src snk with
-    | (.ok _, src', snk') => sts_n_cbc n src' snk' total
-    | (r, src', snk') => (r, src', snk')
+    | [] => (.ok 0, src', snk)     -- the driver answered 0: nothing to hand on
+    | o :: _ => let (r, snk') := putRetry (snk.script.length + 1) snk o; (r, src', snk')
 
 def sts_drain_cbc : (fuel : Nat) → Src → Snk → R × Src × Snk
   | 0, src, snk => (.diverge, src, snk)
@@ -189,6 +191,10 @@ def sts_n : (fuel : Nat) → Src → Snk → (rest total : Nat) → R × Src × 
     match sts_cbc src snk with
     | (.ok k, src', snk') => sts_n fuel src' snk' (rest + 1 - k) total
     | (r, src', snk') => (r, src', snk')
+
+/-- `sts_n_cbc`: counts what was moved (a round that moved nothing does not count) - the same loop as `sts_n`
+    when no endpoint has the buffer extension -/
+def sts_n_cbc (fuel n : Nat) (src : Src) (snk : Snk) (total : Nat) : R × Src × Snk := sts_n fuel src snk n total
 
 /-- `sts_drain` without buffer extension: a sink answering -ENOMEM makes it try the source's
     buffer, which does not exist: -EPIPE -/
